@@ -12,6 +12,7 @@ import (
 	"strings"
 	"time"
 
+	"verif/checks/c01http"
 	"verif/checks/volkit"
 	"verif/mc"
 
@@ -477,12 +478,12 @@ type succ struct {
 // d0), from depth d0 on only states with a new Canon are expanded, up to depth
 // d1.  Levels deeper than softDepth are started only while the search has used
 // less than softBudget (a whole level is then left out and reported).
-func search(r *mc.Run, kind storage.NeedleMapKind, payloads, metas []int, d0, d1, softDepth int, softBudget time.Duration) {
+func search(r *mc.Run, label string, kind storage.NeedleMapKind, payloads, metas []int, d0, d1, softDepth int, softBudget time.Duration) {
 	evs := alphabet(kind, payloads, metas)
 	const workers = 16
 	p := newPool(kind, workers)
 	defer p.close()
-	kn := kindName(kind)
+	kn := kindName(kind) // in witnesses and case classes
 	t0 := time.Now()
 
 	seen := map[string]struct{}{}
@@ -582,24 +583,28 @@ func search(r *mc.Run, kind storage.NeedleMapKind, payloads, metas []int, d0, d1
 		r.AddStates(newStates)
 		frontier = next
 		maxDepth = depth + 1
-		r.Set(kn+"_frontier_at_depth_"+fmt.Sprint(depth+1), len(next))
+		r.Set(label+"_frontier_at_depth_"+fmt.Sprint(depth+1), len(next))
 	}
-	r.Set(kn+"_search_wall_s", int(time.Since(t0).Seconds()))
-	r.Set(kn+"_depth_reached", maxDepth)
-	r.Set(kn+"_unmerged_depth", d0)
-	r.Set(kn+"_alphabet", len(evs))
+	r.Set(label+"_search_wall_s", int(time.Since(t0).Seconds()))
+	r.Set(label+"_depth_reached", maxDepth)
+	r.Set(label+"_unmerged_depth", d0)
+	r.Set(label+"_alphabet", len(evs))
 	var cl []string
 	for c, n := range perClass {
 		cl = append(cl, fmt.Sprintf("%s x%d", c, n))
 	}
 	sort.Strings(cl)
-	r.Set(kn+"_violating_transitions_by_class", cl)
+	r.Set(label+"_violating_transitions_by_class", cl)
 }
 
 func run(r *mc.Run) {
 	volkit.Quiet()
 	volkit.PaceGC(1024)
 	if r.Replay != "" {
+		if c01http.IsWitness(r) {
+			c01http.Replay(r)
+			return
+		}
 		var w witness
 		if err := r.ReplayCase(&w); err != nil {
 			mc.Fatal("replay: %v", err)
@@ -615,15 +620,19 @@ func run(r *mc.Run) {
 		}
 		return
 	}
+	// the HTTP face of the cookie clause: real volume-server handlers (own Parallel phase)
+	c01http.Run(r)
 	r.Assume("the cookie presented by a reader/deleter is compared by the caller with the cookie Store.ReadVolumeNeedle fills in, exactly as GetOrHeadHandler/DeleteHandler do; the Store API itself takes no cookie on read")
 	r.Assume("a write answered isUnchanged (HTTP 304) is not counted as a new successful write: the metadata of the earlier write stands; the harness only demands that such an answer is given for identical cookie and data")
 	r.Assume("AppendAtNs and absolute offsets are not observed")
 	if r.Quick() {
-		search(r, storage.NeedleMapInMemory, []int{2, 0}, []int{0, 2}, 2, 3, 99, 0)
-		search(r, storage.NeedleMapLevelDb, []int{2, 0}, []int{0, 2}, 1, 2, 99, 0)
+		search(r, "memory", storage.NeedleMapInMemory, []int{2, 0}, []int{0, 2}, 2, 3, 99, 0)
+		search(r, "leveldb", storage.NeedleMapLevelDb, []int{2, 0}, []int{0, 2}, 1, 2, 99, 0)
 	} else {
-		search(r, storage.NeedleMapInMemory, []int{1, 0, 2}, []int{0, 1, 2}, 3, 4, 99, 0)
-		search(r, storage.NeedleMapLevelDb, []int{1, 0, 2}, []int{0, 2}, 2, 3, 99, 0)
+		// the quick search one level deeper, then the full alphabet at the quick depth
+		search(r, "memory", storage.NeedleMapInMemory, []int{2, 0}, []int{0, 2}, 2, 4, 99, 0)
+		search(r, "memory-full-alphabet", storage.NeedleMapInMemory, []int{1, 0, 2}, []int{0, 1, 2}, 2, 3, 99, 0)
+		search(r, "leveldb", storage.NeedleMapLevelDb, []int{2, 0}, []int{0, 2}, 2, 3, 99, 0)
 	}
 	r.Sample("history", witness{Kind: "memory", Path: []Event{{Op: "W", Key: 1, Cookie: 0, Payload: 2, Meta: 2}, {Op: "D", Key: 1, Cookie: 1}, {Op: "REOPEN"}}})
 }
